@@ -263,14 +263,20 @@ pub fn gen_pipes(rng: &mut Rng, tier: &Tier) -> Vec<Case> {
             let shape = decorate(rng, t);
             let leaves: Vec<String> = (0..k).map(|_| pipe_leaf(rng)).collect();
             let n = rng.range(0, 5);
-            let src = if rng.chance(1, 4) {
+            let src = if rng.chance(1, 3) {
+                // a source that reports the end and then yields again: the pipe must keep polling it
+                let v: Vec<String> = (0..n + 2)
+                    .map(|_| if rng.chance(1, 3) { "-".to_string() } else { rng.range(-5, 5).to_string() })
+                    .collect();
+                format!("burst[{}]", v.join(","))
+            } else if rng.chance(1, 4) {
                 format!("take({},incr({},{}))", n, rng.range(-3, 3), rng.range(-2, 2))
             } else {
                 let v: Vec<String> = (0..n).map(|_| rng.range(-5, 5).to_string()).collect();
                 format!("iter[{}]", v.join(","))
             };
             let mut c = vec![format!("new 1 pipe shape={} leaves={} source={}", shape, leaves.join("|"), src)];
-            for _ in 0..(n + 3) {
+            for _ in 0..(n + 4) {
                 c.push("ppull 1".into());
             }
             c.push("plog 1".into());
